@@ -7,6 +7,7 @@ mkdir -p bin work evidence/replay
 if ls translator/*.go >/dev/null 2>&1; then
   (cd translator && go build -o ../bin/translator . && ../bin/translator -repo /repo -out ../rocq/Gen)
 fi
+python3 -c "import importlib.machinery,importlib.util;l=importlib.machinery.SourceFileLoader('chk','./check');s=importlib.util.spec_from_loader('chk',l);m=importlib.util.module_from_spec(s);l.exec_module(m);m.regen_coqproject()"
 (cd rocq && coq_makefile -f _CoqProject -o Makefile && timeout 3000 make -j16 -k) || echo "setup: some Coq obligations failed (reported per check)"
 (cd harness && go build -tags verif ./... ) || echo "setup: harness build failed (reported per check)"
 echo setup done
